@@ -159,6 +159,8 @@ def run_case(case, obs=None):
         return run_reread(case[1], case[2])
     if kind == "long_designator":
         return run_long_designator(case[1], case[2])
+    if kind == "rp_rmw":
+        return run_rp_rmw(case[1], case[2])
     if kind == "fixed":
         _, fmt, vals, do_rmw = case
         if fmt == "inquiry_std":
@@ -475,6 +477,27 @@ def run_long_designator(n, dtype):
     return []
 
 
+def run_rp_rmw(i, j):
+    """REPORT PRIORITY parsed, the TransportID blob of one descriptor replaced by one of ANOTHER length (read-modify-write), built
+    again: the list parses back to the descriptors with the new TransportID; lengths are derived from what is emitted"""
+    RP = c04.lib("ReportPriority")
+    t1, t2 = R.transport_id(c04.TIDS[i]), R.transport_id(c04.TIDS[j])
+    if len(t1) == len(t2):
+        return []
+    x = R.report_priority([({"current_priority": 3, "rtpi": 2}, t1), ({"current_priority": 5, "rtpi": 7}, t1)])
+    d = RP.unmarshall_datain(bytearray(x))
+    d["priority_descriptors"][0]["transport_id"] = bytearray(t2)
+    want = R.report_priority([({"current_priority": 3, "rtpi": 2}, t2), ({"current_priority": 5, "rtpi": 7}, t1)])
+    try:
+        got = bytes(RP.marshall_datain(d))
+    except Exception as e:   # noqa: BLE001
+        return [("rp_rmw/raises", "REPORT PRIORITY rebuilt after a TransportID of %d bytes was replaced by one of %d: raised %s: %s" % (len(t1), len(t2), type(e).__name__, e))]
+    if got != want:
+        return [("rp_rmw/bytes", "REPORT PRIORITY rebuilt after the TransportID of its first descriptor (%d bytes) was replaced by one of %d bytes: %s..., expected %s..."
+                 % (len(t1), len(t2), got[:16].hex(), want[:16].hex()))]
+    return []
+
+
 NCHUNK = 3
 
 
@@ -516,6 +539,18 @@ def run_subclass(helper, idxs):
 def run_partition(part, tier, seed):
     acc = Acc(seed)
     if part[0] == "subclass":
+        for i in range(len(c04.TIDS)):
+            for j in range(len(c04.TIDS)):
+                case = ["rp_rmw", i, j]
+                acc.case(case, nontrivial=True, key=repr(case))
+                try:
+                    v = run_rp_rmw(i, j)
+                except Exception:
+                    import traceback
+                    v = [("harness_error", traceback.format_exc()[-600:])]
+                for k, w in v:
+                    acc.violation(k, w, case)
+                acc.outcome((repr(case), tuple(k for k, _ in v)))
         for n in (250, 254, 255, 256, 257, 260, 511, 512):
             for dtype in (8, 0):
                 case = ["long_designator", n, dtype]
